@@ -7,7 +7,8 @@
           | [1; code]      failed with that ErrorKind
           | [2] panic | [8] out of gas
    enc: 0 undefined | 6 silent undefined | 1 none | 2 b | 3 z | 4 n c1..cn | 5 n v1..vn | 7 other
-   [9] = undecodable input. *)
+   [9] = undecodable input.
+   runner c04-sub: [number of LoadConst; number of Lookup] in the stream of `{{ e }}` according to the recursive folder (count_loads mirrors compile_expr; the look-ups are those left in fold_sub e). *)
 From Coq Require Import String.
 From MJ Require Import Common.Base Lang.Syntax Lang.Meta Lang.Interp Lang.Codec C04.Model.
 
@@ -47,8 +48,70 @@ Definition run_with (folder : expr -> option value) (inp : list Z) : list Z :=
   | _ => [9]
   end.
 
+(* instruction counts the recursive folding predicts for `{{ e }}`: LoadConst and Lookup
+   (call-free expressions; [-1; -1] when a call occurs: keyword arguments load constants of their own) *)
+Definition sumZ {X} (f : X -> Z) (l : list X) : Z := fold_right (fun x a => f x + a) 0 l.
+
+(* mirrors the recursion of compile_expr: a node that folds is one LoadConst, otherwise its
+   operands are compiled (an if-expression without else loads the silent undefined) *)
+Fixpoint count_loads (e : expr) {struct e} : Z :=
+  match as_const e with
+  | Some _ => 1
+  | None =>
+    match e with
+    | EConst _ => 1
+    | EVar _ => 0
+    | EList items => sumZ count_loads items
+    | ENeg a | ENot a | EAttr a _ => count_loads a
+    | EBin _ a b | EAnd a b | EOr a b | EItem a b => count_loads a + count_loads b
+    | ECmp a rest => count_loads a + sumZ (fun p => count_loads (snd p)) rest
+    | EIf c t f => count_loads c + count_loads t + match f with Some f => count_loads f | None => 1 end
+    | EFilter _ a args | ETest _ a args _ => count_loads a + sumZ count_loads args
+    | ECall _ _ _ => 0
+    end
+  end.
+
+Fixpoint count_lookups (e : expr) {struct e} : Z :=
+  match e with
+  | EConst _ => 0
+  | EVar _ => 1
+  | EList items => sumZ count_lookups items
+  | ENeg a | ENot a | EAttr a _ => count_lookups a
+  | EBin _ a b | EAnd a b | EOr a b | EItem a b => count_lookups a + count_lookups b
+  | ECmp a rest => count_lookups a + sumZ (fun p => count_lookups (snd p)) rest
+  | EIf c t f => count_lookups c + count_lookups t + match f with Some f => count_lookups f | None => 0 end
+  | EFilter _ a args | ETest _ a args _ => count_lookups a + sumZ count_lookups args
+  | ECall _ _ _ => 0
+  end.
+
+Fixpoint has_call (e : expr) {struct e} : bool :=
+  match e with
+  | EConst _ | EVar _ => false
+  | EList items => existsb has_call items
+  | ENeg a | ENot a | EAttr a _ => has_call a
+  | EBin _ a b | EAnd a b | EOr a b | EItem a b => has_call a || has_call b
+  | ECmp a rest => has_call a || existsb (fun p => has_call (snd p)) rest
+  | EIf c t f => has_call c || has_call t || match f with Some f => has_call f | None => false end
+  | EFilter _ a args | ETest _ a args _ => has_call a || existsb has_call args
+  | ECall _ _ _ => true
+  end.
+
+Definition run_sub (inp : list Z) : list Z :=
+  match inp with
+  | md :: nc :: r =>
+      match dctx (Z.to_nat nc) r with
+      | Some (_, r1) =>
+          match dexpr EFUEL r1 with
+          | Some (e, _) => if has_call e then [-1; -1] else [count_loads e; count_lookups (fold_sub e)]
+          | None => [9]
+          end
+      | None => [9]
+      end
+  | _ => [9]
+  end.
+
 Definition run := run_with as_const.
 Definition run_old := run_with as_const_old.
 
 Open Scope string_scope.
-Definition runners : list (string * (list Z -> list Z)) := [ ("c04", run); ("c04-old", run_old) ].
+Definition runners : list (string * (list Z -> list Z)) := [ ("c04", run); ("c04-old", run_old); ("c04-sub", run_sub) ].
